@@ -403,6 +403,15 @@ func (r *result) adjustDevices(devices []*LinuxDevice, plugin string) error {
 		r.reply.adjust.Linux.Devices = append(r.reply.adjust.Linux.Devices, d)
 	}
 
+	// next, apply deletions with no corresponding additions
+	for _, d := range devices {
+		if key, marked := d.IsMarkedForRemoval(); marked {
+			if _, ok := mod[key]; !ok {
+				r.reply.adjust.Linux.Devices = append(r.reply.adjust.Linux.Devices, d)
+			}
+		}
+	}
+
 	// finally, apply additions/modifications to plugin container creation request
 	create.Container.Linux.Devices = append(create.Container.Linux.Devices, add...)
 
@@ -490,6 +499,15 @@ func (r *result) adjustEnv(env []*KeyValue, plugin string) error {
 			return err
 		}
 		r.reply.adjust.Env = append(r.reply.adjust.Env, e)
+	}
+
+	// next, apply deletions with no corresponding additions
+	for _, e := range env {
+		if key, marked := e.IsMarkedForRemoval(); marked {
+			if _, ok := mod[key]; !ok {
+				r.reply.adjust.Env = append(r.reply.adjust.Env, e)
+			}
+		}
 	}
 
 	// finally, apply additions/modifications to plugin container creation request
